@@ -69,6 +69,14 @@ func cmdVerify(args []string) {
 				units = append(units, w.verifyLemma(p, cs, cs.Lemmas[name]))
 				continue
 			}
+			if strings.HasPrefix(key, "immutable:") {
+				for _, d := range cs.Immutable {
+					if d.Name == strings.TrimPrefix(key, "immutable:") && (len(want) == 0 || want[key]) {
+						units = append(units, w.verifyImmutable(p, d))
+					}
+				}
+				continue
+			}
 			ct := cs.Funcs[key]
 			if ct.Assumed || (len(want) > 0 && !want[key]) {
 				continue
